@@ -61,6 +61,7 @@ func runControl(id string, c Control, base map[string]bool) (res ControlResult) 
 		return
 	}
 	p := LoadProgram(repoDir(), ov, "", "")
+	defer programs.Delete(p.SSA)
 	r := NewReport(id, "control")
 	r.cur = p.Config
 	runProp(id, p, r)
@@ -77,6 +78,7 @@ func runControl(id string, c Control, base map[string]bool) (res ControlResult) 
 
 func baselineNonOK(id string) map[string]bool {
 	p := LoadProgram(repoDir(), nil, "", "")
+	defer programs.Delete(p.SSA)
 	r := NewReport(id, "control")
 	r.cur = p.Config
 	runProp(id, p, r)
